@@ -20,8 +20,9 @@ MECH = {"any": "StaticAny", "changed": "StaticChanged", "fired": "StaticFired", 
 ONCE = ("otc_once", "otcany_once", "obs_once")      # handlers that unregister themselves while being notified
 MECH.update({"otc_once": "Otc", "otcany_once": "OtcAny", "obs_once": "Observe"})
 OBJ_LEVEL = ("otcany", "otcany_once")
-STATIC_ID = {"any": 0, "changed": 1, "fired": 2, "dotc": 3, "dobs": 4}
-STATICS = ("any", "changed", "fired", "dotc", "dobs")
+MECH["dobsx"] = "Observe"
+STATIC_ID = {"any": 0, "changed": 1, "fired": 2, "dotc": 3, "dobs": 4, "dobsx": 5}
+STATICS = ("any", "changed", "fired", "dotc", "dobs", "dobsx")      # dobsx: @observe("x") def _x_changed (excludes "changed")
 CMP = {"T": C("CTrue"), "F": C("CFalse"), "R": C("CRaise")}
 
 
@@ -70,7 +71,9 @@ def to_term(case, ob):
     cfg = C("mkConfig", Raw("pool_eq"), Raw("pool_ne"),
             Raw("pool_validate_any" if case.get("variant") == "any" else "pool_validate"), Nat(case["default"]), kind, hs,
             bool(case.get("orig")) and case["kind"] == "normal",
-            reacts_term(case))
+            reacts_term(case),
+            {"fresh-eq": Some(Raw("fresh_eq_tbls")), "fresh-ne": Some(Raw("fresh_ne_tbls"))}.get(
+                case.get("variant") if case["kind"] == "normal" else "", None))
     h = []
     for op, st in zip(case["ops"], ob["steps"]):
         if op[0] == "Register":
@@ -129,7 +132,7 @@ def describe(case, ob, step, clause):
 
 def nontrivial(case, ob):
     sig = json.dumps([case["kind"], case["mode"], case["default"], case["statics"], case["dyn"], case["raises"], case["ops"],
-                      bool(case.get("orig")), case.get("variant", ""), case.get("sinkmode", ""), case.get("reacts", []), case.get("build", "")])
+                      bool(case.get("orig")), case.get("variant", ""), case.get("sinkmode", ""), case.get("reacts", []), case.get("build", ""), bool(case.get("subclass")), case.get("raise_kind", "")])
     nt = any(s["calls"] or s["out"] != "Ok" for s in ob["steps"])
     return sig, nt
 
@@ -140,6 +143,8 @@ def gen_case(rnd, ctx, maxlen):
     mode = rnd.choice(["none", "identity", "equality", "equality"])
     default = rnd.choice([6, 6, 0, 3])
     statics = [s for s in ("any", "changed", "fired") if rnd.random() < 0.5] + [s for s in ("dotc", "dobs") if rnd.random() < 0.25]
+    if rnd.random() < 0.15:
+        statics = [s for s in statics if s != "changed"] + ["dobsx"]
     dyn = [rnd.choice(["otc", "obs", "otc", "obs", "otcany", "otcm", "obsm"]) for _ in range(rnd.choice([0, 1, 2, 2, 3, 4]))]
     if rnd.random() < 0.15:
         statics = [s for s in statics if s == "dobs"][:0]      # object-level handlers only: the trait has no notifier list
@@ -253,8 +258,9 @@ def gen_case(rnd, ctx, maxlen):
     variant = ""
     if not orig:
         r = rnd.random()
-        variant = "any" if r < 0.15 else "ddef" if (r < 0.3 and kind == "normal") else ""
-    if variant == "ddef":
+        variant = "any" if r < 0.15 else "ddef" if (r < 0.25 and kind == "normal") else \
+            rnd.choice(["fresh-eq", "fresh-ne"]) if (r < 0.45 and kind == "normal") else ""
+    if variant in ("ddef", "fresh-eq", "fresh-ne"):
         # add_trait cannot re-create a class-level `_x_default` wiring: the re-added definition would have another default
         ops = [op for op in ops if op[0] != "Retrait"] or [["Read"]]
     ctx.count("trait-variant:" + (variant or "validating-trait-type"))
@@ -264,12 +270,16 @@ def gen_case(rnd, ctx, maxlen):
         if kind == "event" and build != "shared":
             build = "shared"
     ctx.count("definition:" + (build or "trait-type-instance"))
+    subclass = rnd.random() < 0.35       # the instance under test belongs to a SUBCLASS of the class that defines the handlers
+    raise_kind = "TraitError" if rnd.random() < 0.4 else "HandlerError"
+    ctx.count("instance-of:" + ("subclass" if subclass else "defining-class"))
+    ctx.count("handlers-raise:" + raise_kind)
     sinkmode = "default" if rnd.random() < 0.25 else "recording"
     ctx.count("exception-handler:" + sinkmode)
     ctx.count("self-unregistering-handlers:%d" % (sum(1 for m in dyn if m in ONCE) +
                                                   sum(1 for op in ops if op[0] == "Register" and op[1] in ONCE)))
     return dict(kind=kind, mode=mode, default=default, statics=statics, dyn=dyn, raises=raises, ops=ops, orig=orig,
-                variant=variant, sinkmode=sinkmode, reacts=reacts, build=build)
+                variant=variant, sinkmode=sinkmode, reacts=reacts, build=build, subclass=subclass, raise_kind=raise_kind)
 
 
 def corpus():
@@ -360,6 +370,29 @@ def corpus():
                        ops=[["Other", "e"], ["Assign", 1], ["Assign", 0], ["Other", "y"], ["Assign", 1], ["Assign", 2], ["Assign", 2]]))
     cs.append(dict(kind="event", mode="equality", default=6, statics=["any", "changed", "fired"], dyn=["otc", "obs"], raises=[],
                    build="shared", ops=rep))
+    for kind, mode in (("normal", "none"), ("normal", "identity"), ("normal", "equality"), ("event", "equality")):
+        for sub in (False, True):
+            # a static handler migrated to observe without renaming it, on the defining class and on a subclass; inherited
+            # static / decorated handlers
+            cs.append(dict(kind=kind, mode=mode, default=6, statics=["any", "fired", "dotc", "dobs", "dobsx"], dyn=["otc", "obs"],
+                           raises=[], subclass=sub, ops=[["Assign", 0], ["Assign", 2], ["Assign", 2], ["Read"], ["Assign", 1]]))
+            cs.append(dict(kind=kind, mode=mode, default=6, statics=["any", "changed", "fired"], dyn=["obs"], raises=[2],
+                           subclass=sub, raise_kind="TraitError", ops=[["Assign", 0], ["Assign", 2], ["Assign", 1]]))
+        # handlers that raise TraitError (what assigning an invalid value inside a handler gives), each mechanism in turn, under
+        # the recording and under the default exception policy
+        for r in ([0], [1], [10], [11], [12]):
+            for sm in ("recording", "default"):
+                cs.append(dict(kind=kind, mode=mode, default=6, statics=["any", "changed", "fired"], dyn=["otc", "obs", "otcany"],
+                               raises=r, raise_kind="TraitError", sinkmode=sm, ops=[["Assign", 0], ["Assign", 2], ["Assign", 0]]))
+    afresh = [["Assign", 0], ["Delete"], ["Read"], ["Assign", 2], ["Delete"], ["Delete"], ["Read"], ["Assign", 7], ["Assign", 8],
+              ["Delete"], ["Assign", 6], ["QuietAssign", 2], ["Delete"], ["Read"]]
+    for mode in ("none", "identity", "equality"):
+        # defaults produced afresh each time (all equal like [] / all different), `del` and the read right after it
+        for variant in ("fresh-eq", "fresh-ne"):
+            cs.append(dict(kind="normal", mode=mode, default=6, statics=["changed"], dyn=["obs", "otc", "otcany"], raises=[],
+                           variant=variant, ops=afresh))
+            cs.append(dict(kind="normal", mode=mode, default=6, statics=[], dyn=["obs"], raises=[], variant=variant,
+                           ops=[["Delete"], ["Assign", 0], ["Delete"], ["Read"]]))
     # traits that store the ORIGINAL value (Expression / AdaptsTo style): trigger of F22 (repaired) so that a reversal is detected
     for mode in ("none", "identity", "equality"):
         cs.append(dict(kind="normal", mode=mode, default=6, statics=["changed"], dyn=["obs", "otc"], raises=[], orig=True,
@@ -419,7 +452,11 @@ def run(ctx):
         "Definition pool_ne : list (list cmp) := %s." % coq([[CMP[x] for x in row] for row in tb["ne"]]),
         "Definition pool_validate : list (option val) := %s." % coq(
             [opt(None if v is None else Nat(v)) for v in tb["validate"]]),
-        "Definition pool_validate_any : list (option val) := %s." % coq([Some(Nat(i)) for i in range(len(tb["validate"]))])])
+        "Definition pool_validate_any : list (option val) := %s." % coq([Some(Nat(i)) for i in range(len(tb["validate"]))])] + [
+        "Definition %s : fresh_tbl * fresh_tbl := %s." % (nm, coq(tuple(
+            C("mkFresh", [CMP[x] for x in tb["fresh"][k][w]["row"]], [CMP[x] for x in tb["fresh"][k][w]["col"]],
+              CMP[tb["fresh"][k][w]["other"]], CMP[tb["fresh"][k][w]["self"]]) for w in ("eq", "ne"))))
+        for nm, k in (("fresh_eq_tbls", "fresh-eq"), ("fresh_ne_tbls", "fresh-ne"))])
     ctx.cov["pool_tables"] = tb
     # pre-flight: if the implementation kills the driver process (abort / segfault) find the history that does it and
     # report it as a failing input (the assignment does not complete, no handler is called), then go on without it
